@@ -380,7 +380,8 @@ def apply_edit(ds: xr.Dataset, built: G.Built, state: dict, e: dict) -> xr.Datas
             raise ValueError(how)
         new = vals.reshape(nshape)
         for role, rname in _ugrid_role_names(ds, state).items():
-            if rname == name and role in state['valid_roles']:
+            # Mesh2DTopology.has_valid_* compare the SET of dimensions: a transposed table stays valid
+            if rname == name and role in state['valid_roles'] and set(ndims) != set(dims):
                 state['valid_roles'] = [r for r in state['valid_roles'] if r != role]
                 state['expected'] = [n for n in state['expected'] if n != name]
         return _replace_var(ds, name, ndims, new, dict(v.attrs), dict(v.encoding))
